@@ -59,7 +59,7 @@ Verdict(c, e) ==
      \o (IF e.op = "end"
          THEN Clause("C28:discovery_terminates",
                      /\ e.left = 0 /\ ~e.capped
-                     /\ e.total_sent <= MsgBound(e.nfinds, e.ninjects, c.alpha, c.ttl, Cardinality(c.nodes)))
+                     /\ e.total_sent <= MsgBound(e.nfinds + e.relay_searches, e.ninjects, c.alpha, c.ttl, Cardinality(c.nodes)))
          ELSE <<>>)
 
 \* ---- conformance notes ------------------------------------------------------------
